@@ -40,6 +40,11 @@ Theorem C14_event_list_invariant : forall cfg st, reach cfg st -> inv st.
 Proof. exact reach_inv. Qed.
 Print Assumptions C14_event_list_invariant.
 
+(* ... in particular the state after any history from setup *)
+Theorem C14_history_states_reachable : forall cfg fuel ops, reach cfg (final cfg fuel (init cfg) ops).
+Proof. exact reach_final. Qed.
+Print Assumptions C14_history_states_reachable.
+
 (* pop-min: whenever an event is taken to be executed it is live and every other live pending event -
    including everything scheduled so far by executing events - has a larger key (time, priority, id) *)
 Theorem C14_order : forall cfg st e rest x, reach cfg st -> pop_event (s_events st) = Some (e, rest) ->
